@@ -108,7 +108,7 @@ func TestEngine(t *testing.T) {
 			i := i
 			spawn(func() {
 				r := vc.NewRand(run_.Seed, engine+"-c15", uint64(i))
-				sc := genC15(r)
+				sc := genC15(r, i)
 				sc.ID = fmt.Sprintf("%s/%d/c15", engine, i)
 				vc.Scn(sc.ID)
 				evalC15(col, sc)
@@ -177,7 +177,7 @@ func evalPair(col *vc.Collector, sc *PairScn, res pairResult) {
 	for _, d := range sc.Disturbs {
 		ds = append(ds, d.Kind)
 	}
-	col.Class("C05", fmt.Sprintf("reg=%v:simul=%v:onesided=%v:disturbs=%v", sc.RegBefore, sc.Simultaneous, sc.OneSided, ds))
+	col.Class("C05", fmt.Sprintf("reg=%v:simul=%v:onesided=%v:disturbs=%v:one-sided-phase=%s:early-cut=%v", sc.RegBefore, sc.Simultaneous, sc.OneSided, ds, sc.OneSidedPhase, sc.EarlyCut >= 0))
 	if len(res.Reason) > 5 && res.Reason[:5] == "setup" {
 		col.Inconclusive("C05", "setup")
 		return
